@@ -8,6 +8,10 @@ Events (one per read() call unless noted):
    ("E",)             the read returns b"" (end of stream)
    ("W",)             consumed by write(): the write raises BrokenPipeError
 After the script is exhausted every read times out.
+
+reconnect() honours the BaseTransport contract literally: it returns a NEW transport object (sharing the script, its position and
+the log) and leaves the old object closed; a write or read through the obsolete object is logged as "stale-use" and raises
+ConnectionError, as a closed real transport does.
 """
 
 from __future__ import annotations
@@ -21,10 +25,38 @@ from gallia.transports.base import BaseTransport, TargetURI
 class ScriptedTransport(BaseTransport, scheme="scripted"):
     def __init__(self, script: list[tuple[Any, ...]]) -> None:
         super().__init__(TargetURI("tcp-lines://127.0.0.1:1"))
-        self.script = list(script)
-        self.pos = 0
-        self.log: list[tuple[Any, ...]] = []
-        self.reconnects = 0
+        self._st: dict[str, Any] = {"script": list(script), "pos": 0, "log": [], "reconnects": 0}
+        self.obsolete = False
+
+    # script, position, log and reconnect counter are shared by all generations of the connection
+    @property
+    def script(self) -> list[tuple[Any, ...]]:
+        return self._st["script"]  # type: ignore[no-any-return]
+
+    @property
+    def log(self) -> list[tuple[Any, ...]]:
+        return self._st["log"]  # type: ignore[no-any-return]
+
+    @property
+    def pos(self) -> int:
+        return self._st["pos"]  # type: ignore[no-any-return]
+
+    @pos.setter
+    def pos(self, v: int) -> None:
+        self._st["pos"] = v
+
+    @property
+    def reconnects(self) -> int:
+        return self._st["reconnects"]  # type: ignore[no-any-return]
+
+    @reconnects.setter
+    def reconnects(self, v: int) -> None:
+        self._st["reconnects"] = v
+
+    def _stale(self, op: str) -> None:
+        if self.obsolete:
+            self.log.append(("stale-use", self._now(), self._who(), op))
+            raise ConnectionError(f"{op} on a transport that was replaced by reconnect()")
 
     def _who(self) -> str:
         t = asyncio.current_task()
@@ -46,9 +78,13 @@ class ScriptedTransport(BaseTransport, scheme="scripted"):
     async def reconnect(self, timeout: float | None = None) -> "ScriptedTransport":
         self.reconnects += 1
         self.log.append(("reconnect", self._now(), self._who()))
-        return self
+        new = ScriptedTransport([])
+        new._st = self._st
+        self.obsolete = True
+        return new
 
     async def write(self, data: bytes, timeout: float | None = None, tags: list[str] | None = None) -> int:
+        self._stale("write")
         ev = self.peek()
         if ev is not None and ev[0] == "Z":
             self.pos += 1
@@ -61,6 +97,7 @@ class ScriptedTransport(BaseTransport, scheme="scripted"):
         return len(data)
 
     async def read(self, timeout: float | None = None, tags: list[str] | None = None) -> bytes:
+        self._stale("read")
         ev = self.peek()
         idx = self.pos
         if ev is None or ev[0] in ("T", "Z", "W"):
